@@ -113,6 +113,8 @@ def op_strategy(threshold, keys=KEYS, ttls=TTLS, tags=TAGS, advances=ADVANCES, b
                 st.sampled_from(['i', 'B']),
             )
         )
+        # > 100 items stored at one clock reading with one ttl: they share one expire_time
+        ops.append(st.tuples(st.just('frozen_batch'), st.integers(101, 220), st.sampled_from([5, 300, 0.125]), st.sampled_from(['i', 'B'])))
     return st.one_of(*ops)
 
 
